@@ -305,7 +305,7 @@ func runC02(r *ev.Recorder) {
 		"every chain A(..).B(..) and every nesting A(.. B(..) ..) of two constructs (quick: B with its first four argument combinations; thorough: all) - each as the body of a File (formatted and as NoFormat twin) and through Statement.Render; "+
 		"(b) every single construct under every combination of %d File settings x %d constructors; (c) valid generated programs (gogen, <= 2 deviations) with EVERY single damage (%v) at EVERY item of EVERY list-construct site. "+
 		"Oracle: no panic; File.Render nil => output parses with go/parser as a file AND equals format.Source of what an identically rebuilt File renders with NoFormat; Statement.Render nil => output parses as declarations or statements; error => the writer received nothing. "+
-		"(e) comments of the C15 domain (texts of length <= 2 and code-like ones) at every position of the C15 hosts: formatted == gofmt(raw twin). (f) every token sequence of length <= 3 over {Id, Lit, ) } ] ( ,} through Statement.Render, Statement.RenderWithFile and Group.Render into a plain io.Writer and a *bytes.Buffer, empty or already holding one of 5 texts the fragment could complete: verdict and appended bytes equal those for an empty plain writer, earlier content untouched. (d) instrumented build: for the C07 recipes the formatted render under canonical map order must equal gofmt of the raw render of an identically built File under canonical, reversed and rotated map orders. distinct_nontrivial = distinct cases per outcome class; both classes (valid / error) must be populated", len(cs), len(c02Settings), len(c02Ctors), c02Damages)
+		"(e) comments of the C15 domain (texts of length <= 2 and code-like ones) at every position of the C15 hosts: formatted == gofmt(raw twin). (g) every text of length <= 4 over {/ * space a newline} as PackageComment / HeaderComment / both over 6 bodies (comments and literals holding */, declarations): twin comparison, and a nil error means a Go file with its package clause. (f) every token sequence of length <= 3 over {Id, Lit, ) } ] ( ,} through Statement.Render, Statement.RenderWithFile and Group.Render into a plain io.Writer and a *bytes.Buffer, empty or already holding one of 5 texts the fragment could complete: verdict and appended bytes equal those for an empty plain writer, earlier content untouched. (d) instrumented build: for the C07 recipes the formatted render under canonical map order must equal gofmt of the raw render of an identically built File under canonical, reversed and rotated map orders. distinct_nontrivial = distinct cases per outcome class; both classes (valid / error) must be populated", len(cs), len(c02Settings), len(c02Ctors), c02Damages)
 	r.Assume = []string{"documented deliberate panics are outside the alphabet (Lit of an unsupported type, a Dict next to other items in Values, nil callbacks, nil Dict keys/values)",
 		"a fragment whose text is a complete file by itself (e.g. a bare package clause) is tolerated for Statement.Render"}
 	var mu sync.Mutex
@@ -496,6 +496,26 @@ func runC02(r *ev.Recorder) {
 			}
 		}
 	}
+	// (g) file comments: every text of length <= 4 over {/ * space a newline} as package comment,
+	// header comment or both, over bodies that can close a comment the text leaves open and carry
+	// on with declarations (a successful Render must still be a Go file with its package clause).
+	{
+		texts := c02FileCommentTexts()
+		explore.Range(int64(len(texts))*3*int64(len(c02FileCommentBodies)), 0, r.Expired, func(_ int, i int64) {
+			nb := int64(len(c02FileCommentBodies))
+			t, where, body := texts[i/(3*nb)], int(i/nb%3), int(i%nb)
+			c := c02Case{Kind: "filecomment", B: t, Settings: where, Ctor: body, Desc: fmt.Sprintf("file comment %q (%s) over body %s", t, []string{"PackageComment", "HeaderComment", "both"}[where], c02FileCommentBodies[body].name)}
+			kind, msg := c02Twin(func() (*jen.File, any) { return c02FileCommentFile(c), nil })
+			r.Eval(1)
+			mu.Lock()
+			classes["filecomment:"+kind]++
+			mu.Unlock()
+			r.Distinct("filecomment" + c.Desc + kind)
+			if msg != "" {
+				r.Violate(ev.Violation{Signature: "c02:filecomment:" + problemKind(msg), What: c.Desc + ": " + jh.Short(msg, 300), Case: ev.JSON(c), Detail: msg})
+			}
+		})
+	}
 	// (f) fragments rendered into writers that already hold text: every token sequence of length
 	// <= 3 over a small alphabet of closers, openers and operands, through the three fragment entry
 	// points, into a *bytes.Buffer / a plain io.Writer, empty or pre-filled with text that the
@@ -634,6 +654,51 @@ func runC02(r *ev.Recorder) {
 	}
 }
 
+
+// c02FileCommentBodies follow the package clause in pass (g).
+var c02FileCommentBodies = []struct {
+	name string
+	add  func(f *jen.File)
+}{
+	{"none", func(f *jen.File) {}},
+	{"var", func(f *jen.File) { f.Var().Id("x").Op("=").Lit(1) }},
+	{"Comment(*/)", func(f *jen.File) { f.Comment("*/") }},
+	{"Comment(*/);var", func(f *jen.File) { f.Comment("*/"); f.Var().Id("x").Op("=").Lit(1) }},
+	{"Comment(/* c */);func", func(f *jen.File) { f.Comment("/* c */"); f.Func().Id("g").Params().Block() }},
+	{"Lit(*/);var", func(f *jen.File) { f.Var().Id("s").Op("=").Lit("*/"); f.Var().Id("x").Op("=").Lit(1) }},
+}
+
+func c02FileCommentTexts() []string {
+	alpha := []byte{'/', '*', ' ', 'a', '\n'}
+	var out []string
+	var rec func(prefix []byte, l int)
+	rec = func(prefix []byte, l int) {
+		if len(prefix) == l {
+			out = append(out, string(prefix))
+			return
+		}
+		for _, b := range alpha {
+			rec(append(append([]byte{}, prefix...), b), l)
+		}
+	}
+	for l := 1; l <= 4; l++ {
+		rec(nil, l)
+	}
+	return append(out, "/* a */ /*/", "/**//*/", "/* open", "// a\n/*")
+}
+
+func c02FileCommentFile(c c02Case) *jen.File {
+	f := jen.NewFile("p")
+	if c.Settings == 1 || c.Settings == 2 {
+		f.HeaderComment(c.B)
+	}
+	if c.Settings == 0 || c.Settings == 2 {
+		f.PackageComment(c.B)
+	}
+	c02FileCommentBodies[c.Ctor%len(c02FileCommentBodies)].add(f)
+	return f
+}
+
 func replayC02(raw json.RawMessage) (bool, string) {
 	var c c02Case
 	if err := json.Unmarshal(raw, &c); err != nil {
@@ -642,6 +707,10 @@ func replayC02(raw json.RawMessage) (bool, string) {
 	c02Constructs()
 	if c.Kind == "twin" {
 		return true, "the twin comparison under map orders is replayed by running the check"
+	}
+	if c.Kind == "filecomment" {
+		_, msg := c02Twin(func() (*jen.File, any) { return c02FileCommentFile(c), nil })
+		return msg == "", c.Desc + ": " + msg
 	}
 	if c.Kind == "prefilled" {
 		return true, "the pre-filled writer cases are replayed by running the check (" + c.Desc + ")"
